@@ -12,7 +12,8 @@ from tsg.build import AnalysisBroken
 GRIDS = ["Global", "Sequence", "LocalPolynomial", "Wavelet", "Fourier"]
 RL = "TasGrid::RuleLocal::"
 HPP = "SparseGrids/tsgRuleLocalPolynomial.hpp"
-NPTS = 40
+from tsg.tier import pick
+NPTS = pick(40, 200)
 
 
 def hierarchy_relations(chk, db, rule_id):
@@ -45,8 +46,8 @@ def hierarchy_relations(chk, db, rule_id):
             continue
         n += 1
         chk.saw(GK[r])
-        chk.ob(rule_id, "RuleLocal<%s>" % r, "every parent relation has its inverse among the kids (points 0..%d)" % (NPTS - 1), not missing, GK[r].where,
-               "; ".join(missing[:2]) if missing else "",
+        chk.ob(rule_id, "RuleLocal<%s>" % r, "every parent relation has its inverse among the kids", not missing, GK[r].where,
+               "; ".join(missing[:2]) if missing else "points 0..%d" % (NPTS - 1),
                "the descendant sub-graph walked by getSubGraph contains every point whose surplus depends on the new point")
     return n
 
